@@ -541,6 +541,24 @@ void vf_alloc_reset_counter(void) { a_total = 0; a_failed = 0; a_fail_at = 0; }
 void vf_alloc_fail_at(long k) { a_fail_at = k ? a_total + k : 0; }
 long vf_alloc_failed(void) { return a_failed; }
 
+/* Every block of the process heap, whoever asked for it (the library through jwt_set_alloc, jansson, libcrypto, GnuTLS,
+ * nettle, gmp): counted by the sanitizer run-time's allocation hooks.  -1 where there is no such run-time (plain build). */
+extern int __sanitizer_install_malloc_and_free_hooks(void (*malloc_hook)(const volatile void *, size_t),
+						     void (*free_hook)(const volatile void *)) __attribute__((weak));
+static long heap_live;
+static int heap_hooked;
+static void heap_malloc_hook(const volatile void *p, size_t n) { (void)n; if (p) __atomic_add_fetch(&heap_live, 1, __ATOMIC_RELAXED); }
+static void heap_free_hook(const volatile void *p) { if (p) __atomic_sub_fetch(&heap_live, 1, __ATOMIC_RELAXED); }
+long vf_heap_live(void)
+{
+	if (!heap_hooked) {
+		heap_hooked = -1;
+		if (__sanitizer_install_malloc_and_free_hooks && __sanitizer_install_malloc_and_free_hooks(heap_malloc_hook, heap_free_hook) > 0)
+			heap_hooked = 1;
+	}
+	return heap_hooked > 0 ? __atomic_load_n(&heap_live, __ATOMIC_RELAXED) : -1;
+}
+
 extern int __lsan_do_recoverable_leak_check(void) __attribute__((weak));
 int vf_lsan_check(void)
 {
